@@ -84,7 +84,8 @@ def pipeline_instance():
         psd = bf.get_power_spectral_density_matrix(Y, np.transpose(aligned, (1, 0, 2)))         # (F, K, D, D)
         shapes['psd'] = psd.shape
         sirs = {}
-        for name in ('mvdr_souden', 'gev', 'gev+ban', 'rank1_pca+mvdr_souden', 'rank1_gev+mvdr_souden', 'wmwf'):
+        for name in ('mvdr_souden', 'mvdr_souden+ban', 'gev', 'gev+ban', 'rank1_pca+mvdr_souden', 'rank1_gev+mvdr_souden', 'rank1_pca+gev',
+                     'rank1_gev+gev', 'wmwf', 'wmwf+ban', 'rank1_pca+wmwf', 'rank1_gev+wmwf', 'rank1_pca+wmwf+ban', 'wmwf-selection-vector'):
             out_img = np.zeros((K, K, F, T), dtype=complex)
             out_noise = np.zeros((K, F, T), dtype=complex)
             for k in range(K):
@@ -96,7 +97,13 @@ def pipeline_instance():
                         kw['use_eig'] = True
                     elif name.startswith('rank1_gev'):
                         kw['atf_kwargs'] = {'use_eig': True}
-                w = get_bf_vector(name, tgt, noi, **kw)           # (F, D)
+                if name == 'wmwf-selection-vector':
+                    # the reference given as a (one-hot or weighted) channel selection vector instead of a channel number
+                    u = np.zeros(D)
+                    u[0] = 1.0
+                    w = bf.get_wmwf_vector(tgt, noi, channel_selection_vector=u if k % 2 == 0 else np.broadcast_to(u, (F, D)).copy())
+                else:
+                    w = get_bf_vector(name, tgt, noi, **kw)           # (F, D)
                 shapes['w'] = w.shape
                 for j in range(K):
                     out_img[j, k] = bf.apply_beamforming_vector(w, images[j])
